@@ -133,6 +133,8 @@ Step ==
           /\ UNCHANGED <<ok, cfg, st>>
           /\ (\E i \in 1..Len(e.pairs) : e.pairs[i][1] # e.pairs[i][2]) =>
                 Rej(e, "notify", "a listener reading the estimate back during its notification saw another value than it was given", [pairs |-> e.pairs])
+          /\ Len(e.pairs) = 0 =>
+                Rej(e, "notify", "explicit sets changed the estimate and the registered listener was never told", [sets |-> e.sets])
      ELSE IF e.ev = "Dwell"
      THEN \* C04 on a grid of (smoothing, bound) pairs: the range of the reported estimate while the algorithm is pinned on its
           \* floor and then on its ceiling
